@@ -44,7 +44,7 @@ func DefaultProfile() *Profile {
 		StoreEvery: 1, PoolEvery: 1, LockEvery: 1, StatsEvery: 7, MapGetEvery: 5,
 		MinOps: 20, MaxOps: 300, MaxEntities: 120, Observers: true,
 		CbActions:   []int{CbNothing, CbRead, CbQuery, CbWritePtr, CbGC, CbStructural, CbUnregSelf, CbUnregOther, CbRegNew, CbSet, CbEmit},
-		MisuseKinds: []string{"stale", "dup_add", "missing_remove", "empty_list", "missing_target", "dead_target", "query_dead_target", "query_foreign_relation", "obs_invalid"},
+		MisuseKinds: []string{"stale", "dup_add", "missing_remove", "empty_list", "missing_target", "dead_target", "query_dead_target", "query_foreign_relation", "obs_invalid", "batch"},
 	}
 }
 
@@ -478,7 +478,7 @@ func (g *Gen) Next() Op {
 	case KMisuse:
 		return g.genMisuse()
 	case KRegistry:
-		m := []string{"fill", "fill", "overflow", "locked", "stable", "stable", "use", "use"}[g.R.Intn(8)]
+		m := []string{"fill", "fill", "overflow", "locked", "stable", "stable", "use", "use", "res_fill", "res_fill"}[g.R.Intn(10)]
 		n := g.R.Intn(1000)
 		if m == "fill" && g.R.Chance(0.3) {
 			n = -1 // fill up to the maximum
